@@ -33,11 +33,12 @@ FACTORY = {
     "to it2": lambda ch: ("xfer", ch, "it2"),
     "to sq": lambda ch: ("xfer", ch, "sq"),
     "sel @it1": lambda ch: ("sel", ch, ("gt", C_, ("lit", "$k")), ("it1", True, True, False)),
+    "proj a @it1": lambda ch: ("proj", ch, ("a",), ("it1", True, False, False)),
 }
 EVAL = ("compile", "execute", "process", "diagnose")
 QUICK_FACTORY = ("calc d", "proj -b", "sel a>k", "sel b in [a,k]", "dedup", "sort -b,a", "slice 0:1", "chain self", "join Z", "join sel(Z)",
                  "Z join this", "mat",
-                 "to it2", "to sq", "sel @it1")
+                 "to it2", "to sq", "sel @it1", "proj a @it1")
 
 
 def shapes(tier, seed):
